@@ -76,15 +76,15 @@ def cases(draw):
     use_constraints = draw(st.booleans())
     steps, nsolve, handles = [], 0, 0
     for _ in range(draw(st.integers(3, 12))):
-        k = draw(st.sampled_from(["set", "set", "set", "solve", "solve", "evaluate", "compile", "compile", "call", "call"]))
+        k = draw(st.sampled_from(["set", "set", "set", "solve", "solve", "solve-warm", "evaluate", "compile", "compile", "call", "call"]))
         if k == "set":
             sl = draw(st.sampled_from(pslots))
             steps.append(["set", sl, draw(st.sampled_from(SLOTS[sl][1]))])
-        elif k == "solve":
+        elif k in ("solve", "solve-warm"):
             if nsolve >= 4:
                 continue
             nsolve += 1
-            steps.append(["solve", draw(st.sampled_from(METHODS))])
+            steps.append([k, draw(st.sampled_from(METHODS if k == "solve" else ["SLSQP", "L-BFGS-B", "trust-constr"]))])
         elif k == "evaluate":
             steps.append(["evaluate", draw(st.integers(0, 1)), [draw(st.integers(-4, 4)) / 2.0 for _ in range(4)]])
         elif k == "compile":
@@ -180,9 +180,9 @@ class Model:
         return lambda x: np.concatenate([[ce.value(x)], np.asarray(ce.gradient(x), dtype=float).reshape(-1)])
 
 
-def _solve(P, method):
+def _solve(P, method, x0=None):
     try:
-        s = P.solve(method=method)
+        s = P.solve(method=method) if x0 is None else P.solve(method=method, x0=x0)
         return ("ok", s.status.value, s.objective_value, dict(s.values))
     except Exception as ex:
         return ("raise", type(ex).__name__)
@@ -207,6 +207,7 @@ def _check(case):
             return Result.violation(f"build-raises:{exc_label(ex)}", f"{sample_repr(case)}: {ex!r}", classes)
         handles = []          # (callable, kind, k, created_at_set_count)
         set_count, solved_at = 0, None
+        last_x = None
         nontrivial = False
         desc = lambda i: f"step {i} {case['steps'][i]} in {sample_repr(case)}"
         for i, step in enumerate(case["steps"]):
@@ -260,10 +261,16 @@ def _check(case):
                         if not np.all(np.abs(got - ref) <= 1e-9 * (1 + np.abs(ref) + js.maxabs)):
                             return Result.violation(f"stale-compiled:{kind}", f"{desc(i)}: handle returns {got.tolist()}, interpreter "
                                                                               f"{ref.tolist()} with parameters {M.pvals(values)}", classes)
-            elif k == "solve":
+            elif k in ("solve", "solve-warm"):
                 method = step[1]
-                got = _solve(M.P, method)
-                want = _solve(fresh.P, method)
+                x0 = None
+                if k == "solve-warm" and last_x is not None:
+                    x0 = np.array(last_x, dtype=float)  # warm start at the previous solution (rolling-horizon idiom)
+                    classes.append("warm-start")
+                got = _solve(M.P, method, x0)
+                want = _solve(fresh.P, method, x0)
+                if got[0] == "ok" and len(got[3]) == 4 and all(np.isfinite(list(got[3].values()))):
+                    last_x = [got[3][nm] for nm in NAMES]
                 classes.append("obs:solve:" + method)
                 if solved_at is not None and solved_at < set_count:
                     nontrivial = True
